@@ -291,7 +291,7 @@ def _rewrite_string(s, seg_ren, full_ren):
         os_, ns_ = old.split('::'), new.split('::')
         if len(os_) == len(ns_):
             # same depth: replace differing segments where the stripped string contains the old path
-            if old in strip_generics(out):
+            if old in strip_generics(out) or old in out:      # (`m::<impl Trait for a::b::T>::f` keeps the type inside what strip_generics removes)
                 # build a regex allowing generic args after any segment
                 rx = r'(?<![A-Za-z0-9_])' + r'(?:::<[^()]*?>)?::'.join(re.escape(x) for x in os_) + r'(?![A-Za-z0-9_])'
 
